@@ -2,8 +2,9 @@
    [norm] (the printer prints the comma operator without parentheses, so comma
    trees come back left-nested).  Here: [norm] preserves BEHAVIOUR.
 
-   Part 1 (general): for EVERY compositional semantics of C13's expression
-   trees in which `l , r` means "evaluate l, discard its value, evaluate r"
+   Part 1 (general): for EVERY compositional semantics of the fragment of C13's
+   expression trees that [norm] acts on ([cexpr]; [norm_embed_all] shows C13's
+   norm is [cnorm] there) in which `l , r` means "evaluate l, discard its value, evaluate r"
    (the meaning of every other node is an arbitrary function of the meanings
    of its children: this covers short-circuit operators, assignments,
    conditionals, member accesses), [norm e] and [e] have the same meaning.
@@ -16,6 +17,29 @@
    (an exception) that aborts evaluation keeping the trace so far.  For every
    tree, every store: same value, same final store, same event trace. *)
 From V Require Import Common.Base C13.KwSpec C13.Token C13.LexSpec C13.Toks C13.ParseSpec.
+
+(* The fragment of C13's expression trees that [norm] acts on, as a type of its
+   own (C13's tree type keeps growing: calls, new, argument lists ...); the
+   embedding into C13's trees and the proof that C13's [norm] is [cnorm] on the
+   image are at the end of this file. *)
+Inductive cexpr :=
+ | CId (s : list Z) | CNum (s : list Z) | CRe (b f : list Z)
+ | CDot (e : cexpr) (s : list Z) | CUn (o : op) (e : cexpr) | CBin (o : op) (l r : cexpr)
+ | CCond (c y n : cexpr) | CIndex (e i : cexpr).
+Fixpoint ccomma_app (l r : cexpr) : cexpr :=
+  match r with
+  | CBin BComma r1 r2 => CBin BComma (ccomma_app l r1) r2
+  | _ => CBin BComma l r
+  end.
+Fixpoint cnorm (e : cexpr) : cexpr :=
+  match e with
+  | CDot t s => CDot (cnorm t) s
+  | CUn o v => CUn o (cnorm v)
+  | CBin o l r => if op_eqb o BComma then ccomma_app (cnorm l) (cnorm r) else CBin o (cnorm l) (cnorm r)
+  | CCond c y n => CCond (cnorm c) (cnorm y) (cnorm n)
+  | CIndex t i => CIndex (cnorm t) (cnorm i)
+  | _ => e
+  end.
 
 Section General.
   Variables (S V : Type).
@@ -53,16 +77,16 @@ Section General.
        3. rref = evaluate AssignmentExpression; 4. return ? GetValue(rref) *)
   Definition m_comma (l r : den) : den := bind (gv l) (fun _ => gv r).
 
-  Fixpoint meaning (e : expr) : den :=
+  Fixpoint meaning (e : cexpr) : den :=
     match e with
-    | EId x => m_id x
-    | ENum x => m_num x
-    | ERe b f => m_re b f
-    | EDot t x => m_dot (meaning t) x
-    | EUn o v => m_un o (meaning v)
-    | EBin o l r => if op_eqb o BComma then m_comma (meaning l) (meaning r) else m_bin o (meaning l) (meaning r)
-    | ECond c y n => m_cond (meaning c) (meaning y) (meaning n)
-    | EIndex t i => m_index (meaning t) (meaning i)
+    | CId x => m_id x
+    | CNum x => m_num x
+    | CRe b f => m_re b f
+    | CDot t x => m_dot (meaning t) x
+    | CUn o v => m_un o (meaning v)
+    | CBin o l r => if op_eqb o BComma then m_comma (meaning l) (meaning r) else m_bin o (meaning l) (meaning r)
+    | CCond c y n => m_cond (meaning c) (meaning y) (meaning n)
+    | CIndex t i => m_index (meaning t) (meaning i)
     end.
 
   Lemma m_comma_ext l l' r r' : den_eq l l' -> den_eq r r' -> den_eq (m_comma l r) (m_comma l' r').
@@ -85,30 +109,29 @@ Section General.
   Qed.
 
   Lemma comma_app_meaning : forall r l,
-    den_eq (meaning (comma_app l r)) (m_comma (meaning l) (meaning r)).
+    den_eq (meaning (ccomma_app l r)) (m_comma (meaning l) (meaning r)).
   Proof.
     induction r as [x|x|b f|t IHt x|o v IHv|o r1 IH1 r2 IH2|c IHc y IHy n IHn|t IHt i IHi]; intros l;
-      try (intros s; reflexivity).
-    destruct o; try (intros s; reflexivity).
-    (* r = r1 , r2 *)
-    cbn [comma_app meaning op_eqb]. intros s.
-    change (meaning (EBin BComma (comma_app l r1) r2) s) with (m_comma (meaning (comma_app l r1)) (meaning r2) s).
+      try (intro; reflexivity).
+    destruct o; try (intro; reflexivity).
+    cbn [ccomma_app meaning op_eqb]. intros st0.
+    change (meaning (CBin BComma (ccomma_app l r1) r2) st0) with (m_comma (meaning (ccomma_app l r1)) (meaning r2) st0).
     rewrite (m_comma_ext _ (m_comma (meaning l) (meaning r1)) _ (meaning r2) (IH1 l) (fun _ => eq_refl)).
     rewrite m_comma_assoc. reflexivity.
   Qed.
 
-  Lemma norm_meaning_all : forall e, den_eq (meaning (norm e)) (meaning e).
+  Lemma norm_meaning_all : forall e, den_eq (meaning (cnorm e)) (meaning e).
   Proof.
     induction e as [x|x|b f|t IHt x|o v IHv|o l IHl r IHr|c IHc y IHy n IHn|t IHt i IHi];
-      try (intros s; reflexivity).
-    - cbn [norm meaning]. apply m_dot_ext. exact IHt.
-    - cbn [norm meaning]. apply m_un_ext. exact IHv.
-    - cbn [norm]. destruct (op_eqb o BComma) eqn:E.
-      + intros s. rewrite comma_app_meaning. cbn [meaning]. rewrite E.
+      try (intro; reflexivity).
+    - cbn [cnorm meaning]. apply m_dot_ext. exact IHt.
+    - cbn [cnorm meaning]. apply m_un_ext. exact IHv.
+    - cbn [cnorm]. destruct (op_eqb o BComma) eqn:E.
+      + intros st0. rewrite comma_app_meaning. cbn [meaning]. rewrite E.
         apply m_comma_ext; assumption.
       + cbn [meaning]. rewrite E. apply m_bin_ext; assumption.
-    - cbn [norm meaning]. apply m_cond_ext; assumption.
-    - cbn [norm meaning]. apply m_index_ext; assumption.
+    - cbn [cnorm meaning]. apply m_cond_ext; assumption.
+    - cbn [cnorm meaning]. apply m_index_ext; assumption.
   Qed.
 End General.
 
@@ -288,16 +311,16 @@ Lemma gz_ext f f' : den_eq state value f f' -> forall s, gz f s = gz f' s.
 Proof. intros H s. unfold gz. rewrite H. reflexivity. Qed.
 
 (* the trace semantics of a tree *)
-Definition trace_eval : expr -> cden :=
+Definition trace_eval : cexpr -> cden :=
   meaning state value c_id c_num c_re c_dot c_un c_bin c_cond c_index getvalue_c.
 
-Lemma norm_trace_all : forall e s, trace_eval (norm e) s = trace_eval e s.
+Lemma norm_trace_all : forall e s, trace_eval (cnorm e) s = trace_eval e s.
 Proof.
   intros e. apply norm_meaning_all.
   - intros f f' p H s. unfold c_dot. rewrite (gz_ext f f' H). reflexivity.
   - intros o f f' H s. unfold c_un. rewrite H, (gz_ext f f' H). reflexivity.
-  - intros o f f' g g' Hf Hg s. unfold c_bin.
-    destruct (classify o); rewrite ?Hf, ?(gz_ext f f' Hf); try reflexivity.
+  - intros o f f' g g' Hff Hg s. unfold c_bin.
+    destruct (classify o); rewrite ?Hff, ?(gz_ext f f' Hff); try reflexivity.
     + destruct (f' s) as [[[z|x] s1]|]; try reflexivity. rewrite (gz_ext g g' Hg). reflexivity.
     + destruct (f' s) as [[[z|x] s1]|]; try reflexivity. rewrite (gz_ext g g' Hg). reflexivity.
     + destruct (f' s) as [[[z|x] s1]|]; try reflexivity. rewrite (gz_ext g g' Hg). reflexivity.
@@ -306,7 +329,36 @@ Proof.
   - intros c c' y y' n n' Hc Hy Hn s. unfold c_cond. rewrite (gz_ext c c' Hc).
     destruct (gz c' s) as [[z s1]|]; [|reflexivity].
     destruct (z =? 0); [rewrite (gz_ext n n' Hn)|rewrite (gz_ext y y' Hy)]; reflexivity.
-  - intros f f' g g' Hf Hg s. unfold c_index. rewrite (gz_ext f f' Hf).
+  - intros f f' g g' Hff Hg s. unfold c_index. rewrite (gz_ext f f' Hff).
     destruct (gz f' s) as [[a s1]|]; [|reflexivity]. rewrite (gz_ext g g' Hg). reflexivity.
   - exact getvalue_c_idem.
+Qed.
+
+(* ---------------- the tie with C13: C13's norm on the fragment IS cnorm ---------------- *)
+Fixpoint embed (e : cexpr) : expr :=
+  match e with
+  | CId s => EId s | CNum s => ENum s | CRe b f => ERe b f
+  | CDot t s => EDot (embed t) s
+  | CUn o v => EUn o (embed v)
+  | CBin o l r => EBin o (embed l) (embed r)
+  | CCond c y n => ECond (embed c) (embed y) (embed n)
+  | CIndex t i => EIndex (embed t) (embed i)
+  end.
+
+Lemma comma_app_embed : forall r l, comma_app (embed l) (embed r) = embed (ccomma_app l r).
+Proof.
+  induction r as [x|x|b f|t IHt x|o v IHv|o r1 IH1 r2 IH2|c IHc y IHy n IHn|t IHt i IHi]; intros l;
+    try reflexivity.
+  destruct o; try reflexivity.
+  cbn [embed ccomma_app comma_app]. rewrite IH1. reflexivity.
+Qed.
+
+Lemma norm_embed_all : forall e, norm (embed e) = embed (cnorm e).
+Proof.
+  induction e as [x|x|b f|t IHt x|o v IHv|o l IHl r IHr|c IHc y IHy n IHn|t IHt i IHi]; try reflexivity.
+  - cbn [embed norm cnorm]. rewrite IHt. reflexivity.
+  - cbn [embed norm cnorm]. rewrite IHv. reflexivity.
+  - cbn [embed norm cnorm]. rewrite IHl, IHr. destruct (op_eqb o BComma); [apply comma_app_embed|reflexivity].
+  - cbn [embed norm cnorm]. rewrite IHc, IHy, IHn. reflexivity.
+  - cbn [embed norm cnorm]. rewrite IHt, IHi. reflexivity.
 Qed.
